@@ -20,6 +20,18 @@ pub struct Rdh { pub id: int }
 pub struct Msg;
 pub struct Sender;
 pub struct CdpValidator { pub payload_checks: Ghost<Seq<(int, nat, u64)>> } // (rdh, payload length, offset) of every payload handed over
+pub struct RecvErr;
+/// channel from the dispatcher: the packets of this link still to come, in order; Err when the dispatcher has dropped the sender
+pub struct Receiver { pub queue: Ghost<Seq<int>>, pub taken: Ghost<Seq<int>> }
+impl Receiver {
+    #[verifier::external_body]
+    pub fn recv(&mut self) -> (r: Result<CdpTuple<Rdh>, RecvErr>)
+        ensures
+            (r matches Ok(t) ==> old(self).queue@.len() > 0 && t.0.id == old(self).queue@[0]
+                && final(self).queue@ == old(self).queue@.subrange(1, old(self).queue@.len() as int) && final(self).taken@ == old(self).taken@.push(t.0.id)),
+            (r is Err ==> final(self).queue == old(self).queue && final(self).taken == old(self).taken),
+    { unimplemented!() }
+}
 pub struct RingBuf { pub pushed: Ghost<Seq<int>> }
 impl RingBuf {
     #[verifier::external_body]
@@ -67,6 +79,7 @@ pub struct LinkValidator {
     pub rdh_running_validator: RunningChecker,
     pub rdh_sanity_validator: SanityValidator,
     pub prev_rdhs: RingBuf,
+    pub data_recv_chan: Receiver,
     pub reported_at: Ghost<Seq<u64>>,   // offsets of the RDH errors reported
 }
 
@@ -76,12 +89,15 @@ impl LinkValidator {
         ensures final(self).reported_at@ == old(self).reported_at@.push(rdh_mem_pos),
             final(self).running_checks == old(self).running_checks, final(self).config == old(self).config,
             final(self).rdh_running_validator == old(self).rdh_running_validator, final(self).rdh_sanity_validator == old(self).rdh_sanity_validator,
-            final(self).prev_rdhs == old(self).prev_rdhs, final(self).its_cdp_validator == old(self).its_cdp_validator
+            final(self).prev_rdhs == old(self).prev_rdhs, final(self).its_cdp_validator == old(self).its_cdp_validator,
+            final(self).data_recv_chan == old(self).data_recv_chan
     { unimplemented!() }
 
 //@EXTRACT do_rdh_checks
 
 //@EXTRACT do_checks
+
+//@EXTRACT run
 }
 }
 
